@@ -333,3 +333,10 @@ for name in ("percentile", "quantile", "nanpercentile", "nanquantile"):
     T("np." + name, "all-positional,method|(3,5)", (lambda a, out, f=f, q=q: f(a, q, 1, out, False, "nearest")), {"a": I("X", (3, 5)), "out": I("X", (3,), "zeros")}, inplace=("out",))
     T("np." + name, "positional-axis,kw-method|(3,5)", (lambda a, f=f, q=q: f(a, q, 0, method="higher")), {"a": I("X", (3, 5))})
     T("np." + name, "all-positional,keepdims|(3,5)", (lambda a, f=f, q=q: f(a, q, None, None, False, "midpoint", True)), {"a": I("X", (3, 5))})
+
+# ---- np.histogramdd on ONE (N, D) array of N points (hunt round: the handler iterated the rows) --------------------------
+T("np.histogramdd", "array-sample|(5,2)", lambda s: np.histogramdd(s, bins=2), {"s": I("X", (5, 2))}, cls="other")
+T("np.histogramdd", "array-sample|(3,3)", lambda s: np.histogramdd(s, bins=2), {"s": I("X", (3, 3))}, cls="other")
+T("np.histogramdd", "array-sample,density|(6,2)", lambda s: np.histogramdd(s, bins=(2, 3), density=True), {"s": I("X", (6, 2))}, cls="other")
+T("np.histogramdd", "array-sample,1d|(6,)", lambda s: np.histogramdd(s, bins=3), {"s": I("X", (6,))}, cls="other")
+T("np.histogramdd", "array-sample,weights|(5,2)", lambda s, w: np.histogramdd(s, bins=2, weights=w), {"s": I("X", (5, 2)), "w": I("W", (5,), "pos")}, cls="other")
